@@ -440,8 +440,8 @@ class QubitCircuit:
             self.N,
             reverse_states=self.reverse_states,
             num_cbits=self.num_cbits,
-            input_states=self.input_states,
-            output_states=self.output_states,
+            input_states=deepcopy(self.input_states),
+            output_states=deepcopy(self.output_states),
         )
 
         for circuit_op in reversed(self.gates):
